@@ -72,6 +72,10 @@ def entries(tier="quick"):
     add("QRLinear", lambda: qr.QRLinear(3, num_householder=3), [3])
     add("SVDLinear", lambda: svd.SVDLinear(3, num_householder=2, identity_init=False), [3])
     add("NaiveLinear", lambda: linear.NaiveLinear(3, orthogonal_initialization=False), [3])
+    add("QRLinear(cache)", lambda: qr.QRLinear(3, num_householder=3, using_cache=True), [3])
+    add("SVDLinear(cache)", lambda: svd.SVDLinear(3, num_householder=2, using_cache=True, identity_init=False), [3])
+    add("NaiveLinear(cache)", lambda: linear.NaiveLinear(3, orthogonal_initialization=False, using_cache=True), [3])
+    add("OneByOneConvolution(cache)", lambda: conv.OneByOneConvolution(3, using_cache=True, identity_init=False), [3, 2, 2])
     add("HouseholderSequence", lambda: orthogonal.HouseholderSequence(3, 2), [3])
     add("OneByOneConvolution", lambda: conv.OneByOneConvolution(3, identity_init=False), [3, 2, 2])
     # ---- normalisation (evaluation mode; ActNorm also initialised from data in the harness)
@@ -117,6 +121,29 @@ def entries(tier="quick"):
         m.add_transform(standard.PointwiseAffineTransform(0.5, 1.5), sh)
         return m
     add("Multiscale(Squeeze+ActNorm, Affine)", multiscale, [1, 2, 4])
+    return E
+
+
+def boundary_entries():
+    """degenerate configurations at the edge of what the constructors accept (zero counts, one feature, empty lists).  Most are
+    rejected by the constructors of the pinned code; whatever IS accepted must behave, so checks try to build each one."""
+    from nflows.transforms import base, lu, qr, svd, orthogonal, autoregressive as ar, coupling as cp, nonlinearities as nl, permutations as perm
+    nets = _nets()
+    E = []
+
+    def add(name, make, shape, ctx=None, dom="real"):
+        E.append(dict(name=name, make=make, shape=shape, ctx=ctx, dom=dom, inv_dom=None, umnn=False, kinks=False, train_ok=True, boundary=True))
+    add("SVDLinear(no reflections)", lambda: svd.SVDLinear(3, 0, identity_init=False), [3])
+    add("QRLinear(no reflections)", lambda: qr.QRLinear(3, 0), [3])
+    add("HouseholderSequence(no reflections)", lambda: orthogonal.HouseholderSequence(3, 0), [3])
+    add("CompositeTransform(empty)", lambda: base.CompositeTransform([]), [3])
+    add("CompositeTransform(one part)", lambda: base.CompositeTransform([nl.LeakyReLU(0.3)]), [3])
+    add("LULinear(one feature)", lambda: lu.LULinear(1, identity_init=False), [1])
+    add("MaskedAffineAR(one feature, no blocks)", lambda: ar.MaskedAffineAutoregressiveTransform(1, 4, num_blocks=0), [1])
+    add("MaskedAffineAR(no blocks)", lambda: ar.MaskedAffineAutoregressiveTransform(3, 4, num_blocks=0), [3])
+    add("RandomPermutation(one feature)", lambda: perm.RandomPermutation(1), [1])
+    add("PiecewiseRQCDF(one bin)", lambda: nl.PiecewiseRationalQuadraticCDF([2], num_bins=1, tails="linear", tail_bound=2.0), [2])
+    add("AffineCoupling(two features)", lambda: cp.AffineCouplingTransform([1, 0], lambda i, o: nets.ResidualNet(i, o, 4, num_blocks=0)), [2])
     return E
 
 
